@@ -84,8 +84,14 @@ pub fn c16_breaker_race(s: Shape) {
             let e1 = enter(&chain, &res).unwrap();
             let e2 = enter(&chain, &res).unwrap();
             vrt::threads(s.p[1] as u32);
-            let h1 = std::thread::spawn(move || fail(e1));
-            let h2 = std::thread::spawn(move || fail(e2));
+            let h1 = std::thread::spawn(move || {
+                vrt::start_line(2);
+                fail(e1)
+            });
+            let h2 = std::thread::spawn(move || {
+                vrt::start_line(2);
+                fail(e2)
+            });
             h1.join().unwrap();
             h2.join().unwrap();
             vrt::cover("raced");
@@ -102,8 +108,14 @@ pub fn c16_breaker_race(s: Shape) {
             vrt::threads(s.p[1] as u32);
             let (c1, r1) = (chain.clone(), res.clone());
             let (c2, r2) = (chain.clone(), res.clone());
-            let h1 = std::thread::spawn(move || EntryBuilder::new(r1).with_slot_chain(c1).build().ok());
-            let h2 = std::thread::spawn(move || EntryBuilder::new(r2).with_slot_chain(c2).build().ok());
+            let h1 = std::thread::spawn(move || {
+                vrt::start_line(2);
+                EntryBuilder::new(r1).with_slot_chain(c1).build().ok()
+            });
+            let h2 = std::thread::spawn(move || {
+                vrt::start_line(2);
+                EntryBuilder::new(r2).with_slot_chain(c2).build().ok()
+            });
             let a = h1.join().unwrap();
             let b = h2.join().unwrap();
             vrt::cover("raced");
@@ -124,9 +136,18 @@ pub fn c16_breaker_race(s: Shape) {
             vrt::check(st_code(br[0].current_state()) == 1, "C16:setup-not-half-open");
             vrt::threads(s.p[1] as u32);
             let (c2, r2) = (chain.clone(), res.clone());
-            let h1 = std::thread::spawn(move || probe.exit());
-            let h2 = std::thread::spawn(move || EntryBuilder::new(r2).with_slot_chain(c2).build().ok());
-            let h3 = std::thread::spawn(move || fail(stale));
+            let h1 = std::thread::spawn(move || {
+                vrt::start_line(3);
+                probe.exit()
+            });
+            let h2 = std::thread::spawn(move || {
+                vrt::start_line(3);
+                EntryBuilder::new(r2).with_slot_chain(c2).build().ok()
+            });
+            let h3 = std::thread::spawn(move || {
+                vrt::start_line(3);
+                fail(stale)
+            });
             h1.join().unwrap();
             let newcomer = h2.join().unwrap();
             h3.join().unwrap();
